@@ -1,7 +1,7 @@
 (* Blocking structure ("Teardown"): the part of C10 (iv), C12 and C17 that the functional connection
    models cannot express.  Statements only; model: Impl/Teardown.v (two labelled transition systems,
    data erased: program points, channel occupancy against a symbolic capacity [cap], closed flags,
-   holders of Ctx.lck / bwLck); proofs: Proofs/TeardownProofs.v; notes, the correspondence with the
+   holders of Ctx.lck / bwLck); proofs: Proofs/Teardown*.v (collected in Proofs/TeardownProofs.v); notes, the correspondence with the
    Go lines and the findings in prose: tools/teardown_notes.md.
 
    Everything holds for every capacity cap >= 1 (the Go code uses 128) and every interleaving.
@@ -33,7 +33,7 @@ Module P := TeardownProofs.Final.
 Theorem Teardown_ordered_no_wait_cycle :
   forall (Proc : Type) (wants : Proc -> option nat) (holds : Proc -> nat -> Prop),
     ordered wants holds -> ~ wait_cycle wants holds.
-Proof. exact (@TeardownProofs.ordered_no_wait_cycle). Qed.
+Proof. exact P.ordered_no_wait_cycle. Qed.
 Print Assumptions Teardown_ordered_no_wait_cycle.
 
 (* ================================================================================================ *)
@@ -141,15 +141,20 @@ Theorem S2_silent_peer_never_returns :
     forall i, sv (st r i) = RRead /\ wl (st r i) = WSock true /\ sv (st r i) <> VEnd.
 Proof. exact (P.S2_silent_peer_never_returns cap cap_pos). Qed.
 
-(* FINDING (C17).  The ping timer survives the connection: its callback was running while both
-   pingTimer.Stop() calls were made; its own Reset re-arms it; from the quiet state it fires, finds
-   writeStop closed, re-arms itself, and is back in the same state. *)
-Theorem F_ping_timer_survives : exists s,
-  reachable s /\ quiet s /\ pg s = PArmed /\
-  guard EPingFire s /\ guard (PWr ViaStop) (eff EPingFire s) /\
-  guard PRearm (eff (PWr ViaStop) (eff EPingFire s)) /\
-  eff PRearm (eff (PWr ViaStop) (eff EPingFire s)) = s.
-Proof. exact (P.F_ping_timer_survives cap cap_pos). Qed.
+(* the ping timer (fixed upstream: sendPingAndSchedule checks writeStop before it re-arms).  Once
+   writeStop is closed it stays closed, the potential [pg_pot] of the timer never rises, and every
+   step of the timer, firing included, lowers it: after the stream goroutine has closed writeStop
+   the timer takes at most [pg_pot <= 5] more steps -- it fires at most once more (a callback that
+   had passed the check just before the close) and then stays stopped. *)
+Theorem S1_ping_winds_down : forall s a, wstop s = true -> guard a s ->
+  wstop (eff a s) = true /\
+  pg_pot (pg (eff a s)) <= pg_pot (pg s) /\
+  (pg_act a = true -> pg_pot (pg (eff a s)) < pg_pot (pg s)).
+Proof. exact (P.S1_ping_winds_down cap cap_pos). Qed.
+
+Theorem S1_ping_bounded : forall s l s', wstop s = true ->
+  path guard eff (fun _ => True) s l s' -> count_pg l + pg_pot (pg s') <= pg_pot (pg s).
+Proof. exact (P.S1_ping_bounded cap cap_pos). Qed.
 End Server.
 Print Assumptions S1_rank.
 Print Assumptions S1_bounded.
@@ -167,7 +172,8 @@ Print Assumptions S2_dead_returns.
 Print Assumptions S2_example.
 Print Assumptions S2_silent_state.
 Print Assumptions S2_silent_peer_never_returns.
-Print Assumptions F_ping_timer_survives.
+Print Assumptions S1_ping_winds_down.
+Print Assumptions S1_ping_bounded.
 
 (* the same with the read loop parked in forward on a full reader (cap = 1) *)
 Example S2_example_reader_full : exists s,
@@ -201,6 +207,13 @@ Proof. exact (P.S3_no_wait_cycle cap cap_pos). Qed.
 Theorem S3_no_self_wait : forall s p m, reachable s -> wants s p = Some m -> ~ holds s p m.
 Proof. exact (P.S3_no_self_wait cap cap_pos). Qed.
 
+(* a goroutine parked on a send into c.out holds no mutex (fixed upstream: dispatch queues the
+   WINDOW_UPDATE frames of c.outBuf after dispatchLocked has released the Ctx.lck): in particular no
+   reachable state has the read loop parked on c.out while it holds a Ctx.lck *)
+Theorem S3_out_parks_hold_nothing : forall s p m,
+  reachable s -> parked_on_out s p -> ~ holds s p m.
+Proof. exact (P.S3_out_parks_hold_nothing cap cap_pos). Qed.
+
 (* ---- (S3) C12, nothing stranded.  Runs strongly fair to every goroutine, to the done case of the
    write loop's select and to the caller's body reader, in which at every instant the peer is
    reading or the connection is dead.  Once Close has been entered (Client.Close, or a loop that saw
@@ -224,7 +237,7 @@ End Runs.
 
 Example S3_example : exists s,
   reachable s /\ closed s = true /\ done s = false /\ stalled s = false /\
-  wl s = LWrite HX /\ rl s = RHold HO 2 /\ uc s = UClose CDone /\
+  wl s = LWrite HX /\ rl s = RHold HO /\ uc s = UClose CDone /\
   xc s = KErr /\ xloc s = XTab /\ xerr s = false.
 Proof. exact (P.S3_example cap cap_pos). Qed.
 
@@ -260,13 +273,13 @@ Theorem F4_stranded_by_close_race : exists s,
   (forall a, guard a s -> a = EPeerStall \/ a = ETick \/ a = EUserClose).
 Proof. exact (P.F4_stranded_by_close_race cap cap_pos). Qed.
 
-(* F5: a wait cycle through X's Ctx.lck and the full channel c.out, with a healthy peer *)
-Theorem F5_out_full_lock_cycle : exists s,
+(* F6: the write loop parked on its own queue: c.out full, X's body reader fails, sendPending calls
+   cancelStream -> writeOut on the write loop, c.done open; X itself has been resolved *)
+Theorem F6_write_loop_parked_on_own_queue : exists s,
   reachable s /\ P.only_env cap s /\
   stalled s = false /\ gone s = false /\ done s = false /\
-  wl s = LAcq /\ rl s = ROutL HX 1 /\ lx s = LxRl /\ outq s = cap /\
-  xc s = KErr /\ xerr s = false.
-Proof. exact (P.F5_out_full_lock_cycle cap cap_pos). Qed.
+  wl s = LSelfOut /\ rl s = RRead /\ outq s = cap /\ xc s = KRet.
+Proof. exact (P.F6_write_loop_parked_on_own_queue cap cap_pos). Qed.
 End Client.
 Print Assumptions S3_lock_order.
 Print Assumptions S3_ordered.
@@ -279,4 +292,5 @@ Print Assumptions F1_close_behind_stuck_write.
 Print Assumptions F1b_roundtrip_stuck_in_takeback.
 Print Assumptions F2_write_parked_past_timeout.
 Print Assumptions F4_stranded_by_close_race.
-Print Assumptions F5_out_full_lock_cycle.
+Print Assumptions S3_out_parks_hold_nothing.
+Print Assumptions F6_write_loop_parked_on_own_queue.
